@@ -86,6 +86,21 @@ def run(ctx):
         got = unhx(d.split("\t")[1]) if d.startswith("some") else None
         if got != U(dn[k]):
             nbad.append((dn[k], "a conforming reader recovers %r" % (got,)))
+    # the same mailbox header set twice on one header map - names that differ in their blanks, their case, their quoting, or not at all: what is
+    # written is what setting the last one alone writes (the reader's result for that one is judged above)
+    sq_names = [n for n in dn if n is not None][:60]
+    sq_pairs = [(a, b) for a in ("Bob", " Bob", "Bob  ", "bob", "B o b", "Bob,", "é") for b in ("Bob", "Bob  ", "  Bob ", "BOB", "Bob\t", "é ", " é")] + \
+               [(rng.choice(sq_names), rng.choice(sq_names)) for _ in range(60 if ctx.tier == "quick" else 1500)]
+    sq_lines, sq_want = [], []
+    for hn in ("To", "From", "Sender", "Reply-To"):
+        for a, b in sq_pairs:
+            sq_lines.append("hdr.mailboxes_seq\t%s\t%s/%s" % (hx(U(hn)), "%s,%s" % (hx(U(a)), hx(b"user@example.com")), "%s,%s" % (hx(U(b)), hx(b"user@example.com"))))
+            sq_want.append(c02.mb_line(hn, [(b, "user@example.com")]))
+    sq_i, sq_w = run_impl(sq_lines), run_impl(sq_want)
+    ctx.count(len(sq_lines))
+    for (l, gi, gw) in zip(sq_lines, sq_i, sq_w):
+        if gi != gw:
+            nbad.append((l, "a mailbox header set twice is written as %r; setting the second value alone writes %r" % (unhx(gi)[:120] if len(gi) > 8 else gi, unhx(gw)[:120] if len(gw) > 8 else gw)))
     # file names
     fn = list(GH.exhaustive(2, ["a", "é", " ", '"', "\\", ";", "'", "%", "😀", "*", "="])) + ["x" * k for k in (1, 40, 41, 42, 43, 60, 200)] + ["é" * k for k in (1, 5, 6, 7, 30)] + ['a"b' * 30, "a b" * 40, "naïve file (1).txt", "a\tb", "tab\there.txt", "trailing ", " lead"]
     # (both constructors: ContentDisposition::attachment and ::inline_with_name)
@@ -104,6 +119,7 @@ def run(ctx):
     ctx.cov["oracle"] = {"rfc2047_reader_roundtrip_on_impl": {"cases": len(ok), "failures": len(bad)}, "encoded_words_valid": {"distinct_words": len(wl), "failures": len(wbad)},
                          "display_name_reader_roundtrip": {"cases": len(dn), "failures": len(nbad)}, "rfc2231_filename_roundtrip": {"cases": len(fn), "failures": len(fbad)},
                          "whole_message_readers_roundtrip": {"messages": len(mrecs), "failures": len(msgbad)}}
+    ctx.cov["oracle"]["mailbox_header_set_twice"] = {"cases": len(sq_lines)}
     ctx.cov["exhaustive"] = True
     ctx.cov["rule"] = "as C02's generators; the extracted readers decode_unstructured / decode_word / decode_phrase / decode_disposition are applied to the implementation's emitted fields and must return the original string; the same on whole messages built through the public API (Subject, Message-ID, In-Reply-To, References, User-Agent, Comments, a custom header type, From display name, attachment file name, Content-ID); non-trivial = value with a character outside printable ASCII"
     ctx.sample({"value": ok[50]["value"], "emitted": unhx(ok[50]["impl"]).decode("latin1")[:160]})
